@@ -93,6 +93,10 @@ func (h HdrSpec) valueClass() string {
 	return "bin-unpadded"
 }
 
+// hopKeys are the connection-specific request headers that must never be
+// incoming metadata.
+var hopKeys = []string{"connection", "keep-alive", "proxy-connection", "transfer-encoding", "upgrade"}
+
 // decodeVals turns client-visible values into raw bytes (base64-decoding
 // -bin values unless the client already did).
 func decodeVals(k string, vals []string, decoded bool) ([][]byte, error) {
@@ -166,7 +170,17 @@ func check14(c *Case, o *Obs, rec Rec) (vs []viol, inconclusive string) {
 		return vs, c.Proto + ": client timed out (" + o.Err + ")"
 	}
 	if !rec.Ran {
-		return vs, fmt.Sprintf("%s: the scripted handler was never invoked (HTTP %d, grpc-status %+q %+q, body %+q)", c.Proto, o.HTTP, o.CodeText, clip(o.Msg, 100), clip(string(o.Body), 100))
+		// a well-formed call to a registered method, answered by the mux itself
+		// without invoking the handler: its metadata was not delivered
+		if answered(o) {
+			cls := c.Kind
+			if len(c.Hop) > 0 {
+				cls = "hop-by-hop-headers"
+			}
+			add("call-not-delivered", cls, fmt.Sprintf("the scripted handler was never invoked; the client was answered with HTTP %d, grpc-status %+q %+q, close code %d %+q, body %+q", o.HTTP, o.CodeText, clip(o.Msg, 100), o.WSCode, clip(string(o.WSReason), 100), clip(string(o.Body), 100)))
+			return vs, ""
+		}
+		return vs, fmt.Sprintf("%s: the scripted handler was never invoked (HTTP %d, transport %+q)", c.Proto, o.HTTP, clip(o.Err, 100))
 	}
 	if o.Err != "" {
 		add("no-response", gen, fmt.Sprintf("client got no usable response: %s", ascii(clip(o.Err, 200))))
@@ -187,6 +201,13 @@ func check14(c *Case, o *Obs, rec Rec) (vs []viol, inconclusive string) {
 			}
 			if !sameVals(gb, h.Vals) {
 				add("incoming-value", h.valueClass(), fmt.Sprintf("request header %+q sent as %+q reached the handler as %s, want %s", h.Name, h.wire(), showVals(gb), showVals(h.Vals)))
+			}
+		}
+		// connection-specific headers of the client's HTTP/1 connection (RFC
+		// 9110 7.6.1, forbidden in HTTP/2 by RFC 9113 8.2.2) are not metadata
+		for _, k := range hopKeys {
+			if v, ok := rec.MD[k]; ok {
+				add("incoming-hop-by-hop-key", k, fmt.Sprintf("the connection-specific request header %+q=%+q is part of the handler's incoming metadata", k, v))
 			}
 		}
 		return vs, ""
@@ -517,7 +538,8 @@ type c14Runner struct {
 	r      *mon.Run
 	env    *Env
 	rng    *rand.Rand
-	target string // "" | "proxy": target of the cases being generated
+	target string      // "" | "proxy": target of the cases being generated
+	hop    [][2]string // hop-by-hop headers added to the incoming cases being generated
 }
 
 // nameMode is the header-name alphabet for a protocol on the current target:
@@ -560,7 +582,7 @@ func (g *c14Runner) exec(c *Case) {
 				r.Count("request_header_values_checked", len(h.Vals))
 			}
 			for cl := range classes {
-				r.Distinct(fmt.Sprintf("in/%s%s/%s/%s/%s", c.Target+":", protoFamily(c.Proto), c.Codec, c.Method, cl))
+				r.Distinct(fmt.Sprintf("in/%s%s/%s/%s/%s/hop=%d", c.Target+":", protoFamily(c.Proto), c.Codec, c.Method, cl, len(c.Hop)))
 			}
 		} else {
 			r.Count("response_header_keys_checked", len(c.Script.Hdr))
@@ -594,6 +616,7 @@ var inProtos = []struct {
 }{
 	{"http", true, true}, {"http-sock", true, false}, {"grpc-raw", true, true}, {"grpc-h2c", true, false},
 	{"grpc", false, false}, {"grpcweb", true, true}, {"grpcweb-text", true, false}, {"grpcweb-sock", true, false},
+	{"ws", true, false}, // the WebSocket handshake is an HTTP/1 request served by the transcoding path
 }
 
 func (g *c14Runner) inCase(proto, method string, hdrs []HdrSpec, class string) {
@@ -601,8 +624,11 @@ func (g *c14Runner) inCase(proto, method string, hdrs []HdrSpec, class string) {
 	if strings.HasPrefix(proto, "http") || g.rng.Intn(4) == 0 {
 		codec = []string{"json", "proto"}[g.rng.Intn(2)]
 	}
+	if proto == "ws" {
+		method, codec = "Bidi", "json"
+	}
 	c := &Case{Kind: "C14in", Proto: proto, Codec: codec, Method: method, ReqHdr: hdrs, Class: class, Target: g.target,
-		Script: Script{Replies: 1}}
+		Script: Script{Replies: 1}, Hop: g.hop}
 	g.exec(c)
 }
 
@@ -633,7 +659,7 @@ func (g *c14Runner) binSweep(proto string, wide bool, vals [][]byte, class strin
 
 // RunC14 is the metadata fidelity check.
 func RunC14(r *mon.Run) {
-	r.Rule = "(in) requests carrying 1-6 custom headers (names over the HTTP token alphabet in mixed case, 1-3 values, '-bin' names with every byte string of length 0-1 (thorough: 0-2) plus boundary/random strings of length 3..500, each sent as padded and as unpadded base64) on HTTP transcoding, raw gRPC (in-process, h2c), grpc-go, gRPC-web binary/text (in-process, HTTP/1 socket), with the handler registered on the mux and with the same handler on a grpc.Server back-end proxied through RegisterConn; the handler's metadata.FromIncomingContext is compared with what was sent. (out) a scripted handler sets 0-4 header keys (SetHeader or SendHeader) and 0-4 trailer keys before / after its first reply, optionally one protocol-reserved key with a forged value, optionally keeps mutating / re-using the metadata.MD object it passed in (values overwritten in place, slices replaced, keys added, keys deleted, header MD refilled and passed to SetTrailer), then succeeds or fails before / after the first reply; the client (HTTP response headers, grpc-go Header/Trailer call options, gRPC-web headers + trailer frame) must see every non-reserved key with the values it had at the time of the call, byte-equal, no key added later, never the forged value, and the handler's real status. Non-trivial = the scripted handler ran; distinct = (direction, protocol, codec, method, name/value class | outcome, header/trailer set shape, reserved key)"
+	r.Rule = "(in) requests carrying 1-6 custom headers (names over the HTTP token alphabet in mixed case, 1-3 values, '-bin' names with every byte string of length 0-1 (thorough: 0-2) plus boundary/random strings of length 3..500, each sent as padded and as unpadded base64) on HTTP transcoding, raw gRPC (in-process, h2c), grpc-go, gRPC-web binary/text (in-process, HTTP/1 socket) and the WebSocket handshake, plus a class that adds hop-by-hop headers (Connection, Keep-Alive, Proxy-Connection) on the HTTP/1 fronts, which must not become metadata, with the handler registered on the mux and with the same handler on a grpc.Server back-end proxied through RegisterConn; the handler's metadata.FromIncomingContext is compared with what was sent. (out) a scripted handler sets 0-4 header keys (SetHeader or SendHeader) and 0-4 trailer keys before / after its first reply, optionally one protocol-reserved key with a forged value, optionally keeps mutating / re-using the metadata.MD object it passed in (values overwritten in place, slices replaced, keys added, keys deleted, header MD refilled and passed to SetTrailer), then succeeds or fails before / after the first reply; the client (HTTP response headers, grpc-go Header/Trailer call options, gRPC-web headers + trailer frame) must see every non-reserved key with the values it had at the time of the call, byte-equal, no key added later, never the forged value, and the handler's real status. Non-trivial = the scripted handler ran; distinct = (direction, protocol, codec, method, name/value class | outcome, header/trailer set shape, reserved key)"
 	r.Floor = 120
 	env, err := newEnv()
 	if err != nil {
@@ -708,6 +734,39 @@ func RunC14(r *mon.Run) {
 					method = "SS"
 				}
 				g.inCase(p.proto, method, hdrs, "random")
+			}
+		}
+		// hop-by-hop headers of HTTP/1 fronts: never metadata, and every other
+		// header still arrives
+		hopSets := [][][2]string{
+			{{"Connection", "keep-alive"}},
+			{{"Connection", "keep-alive"}, {"Keep-Alive", "timeout=5"}},
+			{{"Proxy-Connection", "keep-alive"}},
+			{{"Connection", "close"}},
+			{{"Keep-Alive", "timeout=5"}, {"Proxy-Connection", "keep-alive"}},
+		}
+		for _, hp := range []string{"http", "http-sock", "grpcweb", "grpcweb-text", "grpcweb-sock", "grpcweb-text-sock", "ws"} {
+			for _, hs := range hopSets {
+				if hp == "ws" && hs[0][0] == "Connection" {
+					continue // the handshake has its own Connection: Upgrade
+				}
+				for i, n := 0, r.Pick(3, 20); i < n; i++ {
+					used := map[string]bool{}
+					var hdrs []HdrSpec
+					for k, nk := 0, 1+rng.Intn(3); k < nk; k++ {
+						bin := rng.Intn(2) == 0
+						h := HdrSpec{Name: genReqName(rng, g.nameMode(true), bin, used), Padded: bin && rng.Intn(2) == 0}
+						if bin {
+							h.Vals = append(h.Vals, genBinValue(rng))
+						} else {
+							h.Vals = append(h.Vals, genASCIIValue(rng), genASCIIValue(rng))
+						}
+						hdrs = append(hdrs, h)
+					}
+					g.hop = hs
+					g.inCase(hp, []string{"Echo", "SS"}[i%2], hdrs, "hop-by-hop")
+					g.hop = nil
+				}
 			}
 		}
 	}
